@@ -34,7 +34,7 @@ fn filter_list(
 
     for value in list.into_iter() {
         bindings.bind_param(ident_name, value.clone());
-        let interp = Interpreter::new(&cel, &bindings);
+        let interp = Interpreter::nested(ctx, &cel, &bindings);
 
         let res = match interp.run_raw(predicate, true) {
             Ok(val) => val,
@@ -65,7 +65,7 @@ fn filter_map(
     for key in keys {
         let value: CelValue = key.into();
         bindings.bind_param(ident_name, value.clone());
-        let interp = Interpreter::new(&cel, &bindings);
+        let interp = Interpreter::nested(ctx, &cel, &bindings);
 
         let res = match interp.run_raw(predicate, true) {
             Ok(val) => val,
